@@ -463,6 +463,22 @@ def search(ctx):
 
 def replay(ctx, data):
     print(json.dumps(data, indent=1, default=str)[:2500])
+    if 'file_macro' in data:
+        import pathlib
+        from polyply.src.gen_seq import gen_seq
+        fm = data['file_macro']
+        with systems.Workdir() as wd:
+            itp = pathlib.Path(wd) / 'head.itp'
+            itp.write_text(HEAD_ITP)
+            out = pathlib.Path(wd) / 'fm.json'
+            n = len(fm['seq'])
+            sizes = [3 if t == 'H' else 2 for t in fm['seq']]
+            quiet(gen_seq, 'x', out, fm['seq'], inpath=[itp], from_file=['H:HEAD'], macro_strings=['A:2:1:PEO-1.0'],
+                  connects=[f'{k}:{k + 1}:{sizes[k] - 1}-0' for k in range(n - 1)], tags=[f'{i}:{a}:{v}-1.0' for i, a, v in fm['labels']])
+            g = json.loads(out.read_text())
+            for nd in g['nodes']:
+                print('replay:', nd)
+        return 0
     case = data.get('case')
     if not case:
         return 0
